@@ -24,11 +24,11 @@ from props import c02_gen as G
 
 PROP = 'C02'
 THEOREMS = [
-    'C02_apply_partition', 'C02_diff_apply', 'C02_migrate_ok', 'C02_migrate_no_error', 'C02_nothing_left',
+    'C02_apply_partition', 'C02_diff_any_order', 'C02_diff_apply', 'C02_migrate_ok', 'C02_migrate_no_error', 'C02_nothing_left',
     'C02_sch_eqb_iff', 'C02_partition_injective', 'C02_partition_wellformed', 'C02_partition',
     'C02_partition_disjoint', 'C02_alter_is_pair', 'C02_alter_threshold',
 ]
-EVO_TARGETS = ['theories/Evo/ProofsTop.vo', 'theories/Evo/ProofsDObj.vo']
+EVO_TARGETS = ['theories/Evo/ProofsTop.vo', 'theories/Evo/ProofsDObj.vo', 'theories/Evo/ProofsDiff.vo']
 
 
 # ---------------------------------------------------------------- cases
@@ -44,8 +44,8 @@ def corpus():
 
 
 def gen_cases(tier):
-    n_pairs = 110 if tier == 'quick' else 1400
-    n_sweeps = 1 if tier == 'quick' else 8
+    n_pairs = 110 if tier == 'quick' else 600
+    n_sweeps = 1 if tier == 'quick' else 4
     n_mal = 12 if tier == 'quick' else 60
     cases = []
     for c in corpus():
